@@ -147,20 +147,23 @@ def check(case, ctx):
 
 # ---- size tier ---------------------------------------------------------------
 BIG_SIZES = [32_767, 32_768, 65_535, 65_536, 70_000, 200_000]
+# group sizes / n around the limits of narrow counters (int8, uint8); keys whose codes are stored in int8 / int16
+SMALL_LIMIT_SIZES = [127, 128, 129, 255, 256, 257, 300, 1000]
+KEYDTYPES = ["float", "float", "cat8", "bool", "cat16"]
 
 
 @st.composite
 def big_case(draw, variant):
-    g = draw(st.sampled_from(BIG_SIZES))
-    how = draw(st.sampled_from(["head", "tail", "nth", "nth", "nth"]))
-    near = draw(st.sampled_from([g - 1, g, g - 2, 32_767, 32_768, 40_000, 65_535, 65_536, 3, 0]))
+    g = draw(st.sampled_from(BIG_SIZES + SMALL_LIMIT_SIZES))
+    how = draw(st.sampled_from(["head", "tail", "nth", "nth", "nth"] if g in BIG_SIZES else ["head", "tail", "nth"]))
+    near = draw(st.sampled_from([g - 1, g, g - 2, 32_767, 32_768, 40_000, 65_535, 65_536, 3, 0, 127, 128, 129, 255, 256]))
     if how == "nth":
         narg = draw(st.sampled_from([near, -1, -near - 1, -2, g // 2, -(g // 2)]))
     else:
         narg = draw(st.sampled_from([near, 2, g + 5]))
     narg = int(max(min(narg, g + 10), -g - 10))
     return {"big": g, "how": how, "narg": narg, "stride": draw(st.sampled_from([0, 7, 1000])), "small": draw(st.integers(1, 3)),
-            "sort": True, "vals_as": "np", "index": "default", "extra": []}
+            "sort": True, "vals_as": "np", "index": "default", "extra": [], "keydtype": draw(st.sampled_from(KEYDTYPES))}
 
 
 def big_check(case, ctx):
@@ -177,9 +180,21 @@ def big_check(case, ctx):
         n = g
         keys = np.full(n, 5.0)
     labels = [None if np.isnan(k) else (float(k),) for k in keys]
+    kd = case.get("keydtype", "float")
+    keys_obj = keys
+    if kd in ("cat8", "cat16"):
+        # categorical keys: the group codes are int8 (few categories) or int16 (200 categories, most of them unused)
+        cats = [1.0, 2.0, 3.0, 5.0] + ([100.0 + i for i in range(200)] if kd == "cat16" else [])
+        keys_obj = pd.Categorical(keys, categories=cats)
+    elif kd == "bool":
+        nullrow = np.isnan(keys)
+        keys_obj = keys == 5.0
+        labels = [(bool(k),) for k in keys_obj]
+        if nullrow.any():
+            labels = [(bool(k),) for k in keys_obj]  # a boolean key has no null: the NaN row joins the small group
     groups = model.group_positions(labels, range(n))
-    ctx.seen("big", case, True, [f"big:{g}", f"big:how:{case['how']}", f"big:stride:{stride}"])
-    res, index, ids, extra = run(case, keys, n, labels)
+    ctx.seen("big", case, True, [f"big:{g}", f"big:how:{case['how']}", f"big:stride:{stride}", f"big:keydtype:{kd}"])
+    res, index, ids, extra = run(case, keys_obj, n, labels)
     verify(case, res, index, ids, extra, labels, groups, n)
 
 
